@@ -36,9 +36,9 @@ ASSUMPTIONS = [
     "a stale .update.CONTENTS left behind by a crash is not an error for this property",
 ]
 BOUNDS = {
-    "quick": "universe 301 entries (+ the empty set): all singles; all pairs of a 75-entry core (distinct paths); all triples of a "
-    "36-entry core; crash sweep: all ordered pairs of 14 scenario sets incl. absent/empty (182 scenarios x 5 crash points + 1 torn write)",
-    "thorough": "all singles; all pairs of the whole universe; all triples of a 75-entry core; crash sweep over all ordered pairs of 30 scenario sets",
+    "quick": "universe 562 entries (+ the empty set): all singles; all pairs of a 75-entry core (distinct paths); all triples of a "
+    "36-entry core (~9.3k round trips); crash sweep: all ordered pairs of 14 scenario sets incl. absent/empty = 182 scenarios x (5 crash points + 1 torn write)",
+    "thorough": "all singles; all pairs of the whole 562-entry universe; all triples of a 75-entry core (~204k round trips); crash sweep over all ordered pairs of 21 scenario sets = 420 scenarios",
 }
 
 # ---------------------------------------------------------------------------------------------
@@ -456,6 +456,8 @@ def work(task):
                 samples = [[list(e) for e in combos[len(combos) // 2]]]
     finally:
         shutil.rmtree(base, ignore_errors=True)
+    # the runner keeps at most 40 candidates per task: put the ones no classifier explains first
+    viol.sort(key=lambda v: any(f(v) for f in CLASSIFIERS.values()))
     return {"evals": evals, "classes": classes, "viol": viol, "samples": samples, "counters": counters}
 
 
